@@ -44,7 +44,11 @@ def run(chk):
     e8.check_flow(chk, "FF1", P.methods["shallow_copy"], ["self"], "phi.factor")
     e8.check_flow(chk, "FF1", O.methods["to_tensor"], ["self"], "dense tensor")
     e8.check_flow(chk, "FF1", prog.cls(OBC, "MpoPBC").methods["to_tensor"], ["self"], "dense tensor")
-    e8.check_flow(chk, "FF1", O.methods["norm"], ["phi"], "returned norm")
+    nf = O.methods["norm"]
+    cps = [A.text(n.targets[0]) for n in A.walk_local(nf.node) if isinstance(n, ast.Assign) and isinstance(n.value, ast.Call)
+           and A.text(n.value.func) == f"{nf.params[0]}.shallow_copy"]
+    chk.require(cps, "MpsMpoOBC.norm: shallow copy of the receiver not found")
+    e8.check_flow(chk, "FF1", nf, [cps[0]], "returned norm")
     # functions built on a shallow copy keep the factor: they must start from a copy and never overwrite .factor with
     # something that does not depend on the source's factor
     for name in ("conj", "transpose", "conjugate_transpose", "reverse_sites", "copy", "clone", "on_bra"):
@@ -77,7 +81,9 @@ def run(chk):
     for ci in (e2, e3):
         m = ci.methods["measure"]
         rets = [r for r in A.returns_of(m.node) if r.value is not None]
-        ok = all("self.factor()" in A.text(r.value) for r in rets) and rets
+        me_ = m.params[0]
+        tn = e8.Taint(m.node, lambda n_: isinstance(n_, ast.Call) and A.text(n_.func) == f"{me_}.factor")
+        ok = bool(rets) and all(tn.mentions(r.value) for r in rets)
         chk.verdict("FF1", (m, rets[0]), rets[0].value, True if ok else False,
                     f"{ci.name}.measure(): the overlap is not multiplied by self.factor() (product of the factors of bra, op, ket)")
     ep = prog.cls(ENV, "EnvParent")
